@@ -153,6 +153,12 @@ def OptionClosureContainsIncompatiblePair(payload):
 
 
 @trigger
+def PatternEncoderSelected(payload):
+    """Selection ended with one of the pattern encoders (they size their variables from the unrestricted settings)."""
+    return any('Pattern Encoder' in str(n) for n in (payload.get('selected') or []))
+
+
+@trigger
 def HasConnectionChoice(payload):
     return bool(_g(payload).get('cc'))
 
